@@ -5,15 +5,18 @@ import re
 import verifylib as V
 
 ASSUME = [
-    "values are small integers and integer-valued floats (4-value domain, random phase -3..5), batches of at most 6 points: "
-    "extreme magnitudes, overflow, NaN/Inf inputs and float rounding are out of reach of an integer model and are NOT covered",
-    "float results are logged as round(v*60) and must be integral up to 1e-9 (1e-6 for stddev^2): mean and stddev are checked "
+    "ordinary phases: values are small integers and integer-valued floats (4-value domain, random phase -3..5), batches of at most 6 "
+    "points; a float result is logged as round(v*60) and must be integral up to 1e-9 (1e-6 for stddev^2); mean and stddev are checked "
     "through N*mean = sum and s^2*N*(N-1) = N*sum(x^2)-(sum x)^2 in scaled integers",
+    "magnitude phase: values S*B+d for B in 1e9, 1e12, 2^53 (int64 results only), -4e12; the driver splits every observed result exactly "
+    "(big rationals, no function-specific reference) into m*B+r; TLC checks m and r against the definition and the logged distance in "
+    "ulps against UlpTol (fixed in Aggregates.tla, measured on HEAD).  NOT covered: integer overflow, NaN/Inf inputs, float64 results "
+    "around 2^53, arbitrary real-valued inputs",
     "where the property leaves a choice open (which of several equal minima/maxima/percentile points, which of several modes, "
     "order of points inside distinct/top/bottom batches) every choice is accepted; the code's order is reported as drift only",
     "streaming transforms are fed one field kind per batch / per group stream (after a failing AggregatePoint the code re-emits its "
     "previous value; the property does not speak about that error path)",
-    "holtWinters (numerical optimisation) and bool fields are not modelled",
+    "point tags never conflict with a group tag (same key, other value); holtWinters (numerical optimisation) is not modelled",
     "TLC fingerprint collisions are negligible; the libflux link stub is never executed",
 ]
 
